@@ -1622,7 +1622,7 @@ ExpressionEvaluator::format_interpolated_value(const TypedValue &value,
         } else if (value.is_numeric_result) {
             long long_val = value.value;
             if (zero_pad && width > 0) {
-                ss << std::setfill('0') << std::setw(width);
+                ss << std::setfill('0') << std::internal << std::setw(width);
             } else if (width > 0) {
                 ss << std::setw(width);
             }
